@@ -266,6 +266,7 @@ def run(F, rep, tier):
                 rep.violation(r5, "type_of:empty-list", "the empty list is typed %s (line %s): its element type must be Null, the type that conforms to every type - otherwise [] does not conform to "
                               "list<T> and is coerced to null" % (describe(d) if False else inner[:80], line), "%s:%s" % (tof["file"], line))
 
+    list_type_fold_rule(F, rep)
     # ---- R16.4
     fl = hirflow.Flow(coe)
     outs = list(fl.returns)
@@ -401,3 +402,43 @@ def contains_index(d):
 
 def mentions_len_eq_1(d):
     return isinstance(d, tuple) and d and d[0] == "bin" and d[1] == "==" and ("lit", 1) in (d[2], d[3]) and "len" in repr(d)
+
+
+def list_type_fold_rule(F, rep):
+    """R16.5 (fold): Value::type_of folded on concrete lists of abstract items (loops over the concrete list unrolled, iterator adaptors folded, the recursive call on an item
+    inlined): [] is list<Null> - the bottom element type, so that the empty list conforms to every list type -, a list of items of one type is list<that type>, a list of
+    items of different types is list<Any>."""
+    from hireval import Evaluator, TooManyPaths, value, sym
+    rid = rep.rule("R16.5", "Value::type_of derives the type of a list / context from all of its items / entries (a loop or iterator over the components that calls type_of on each)")
+    tname = "dmntk_feel::values::Value::type_of"
+    h = F.hir.get(tname)
+    if h is None:
+        rep.missing_anchor(rid, tname)
+        return
+    N, S, B_ = value("Number", sym("n")), value("String", sym("s")), value("Boolean", sym("b"))
+    cells = [("[]", [], "Null"), ("[number]", [N], "Number"), ("[number, number]", [N, N], "Number"), ("[number, string]", [N, S], "Any"), ("[string, number, number]", [S, N, N], "Any"),
+             ("[number, number, boolean]", [N, N, B_], "Any"), ("[string]", [S], "String")]
+    for label, items, want in cells:
+        ev = Evaluator(F, ints=True, max_paths=400, inline={tname})
+        try:
+            outs = ev.run(h["params"], h["body"], [value("List", ("array", list(items)))])
+        except (TooManyPaths, ValueError, KeyError, RecursionError):
+            outs = None
+        got = set()
+        for _, v in (outs or []):
+            while isinstance(v, tuple) and v[0] == "v" and v[1] == "List" and len(v[2]) == 1:
+                v = ("inner", v[2][0])
+                break
+            if isinstance(v, tuple) and v[0] == "inner" and isinstance(v[1], tuple) and v[1][0] == "v":
+                got.add(v[1][1])
+            else:
+                got.add(None)
+        key = "type_of:fold:%s" % label
+        if not outs or None in got or len(got) != 1:
+            rep.undecided(rid, key, "Value::type_of does not fold on the list %s" % label)
+        elif got != {want}:
+            rep.violation(rid, key, "Value::type_of gives list<%s> for %s; it is list<%s>%s" % (got.pop(), label, want,
+                          " - the empty list must have the bottom element type so that [] conforms to every list<T> (otherwise a typed parameter or result turns [] into null)" if not items else ""),
+                          "%s:%s" % (h["file"], h["line"]))
+        else:
+            rep.ok(rid, key, "list<%s>" % want)
